@@ -20,3 +20,11 @@ pub fn boundary_ints() -> Vec<i128> {
 pub fn bytes_of_len(len: usize, seed: u8) -> Vec<u8> {
     (0..len).map(|i| seed.wrapping_add(i as u8).wrapping_mul(31).wrapping_add(7)).collect()
 }
+
+pub mod canon;
+pub mod cbor;
+pub mod plutus;
+pub mod pipeline;
+pub mod store;
+pub mod tirb;
+pub mod txdecode;
